@@ -691,7 +691,8 @@ fn gen_obj_inner(rng: &mut Rng) -> GenObj {
     GenObj { text, verts, tris, hot, lines, mutated: false }
 }
 
-const BAD_INDEX: [&str; 22] = [
+const BAD_INDEX: [&str; 30] = [
+    "-9223372036854775808", "-9223372036854775809", "-9223372036854775807", "-18446744073709551615", "-18446744073709551616", "-4294967296", "-2147483648", "-0",
     "0", "-1", "-3", "99999999999999999999999", "18446744073709551616", "18446744073709551615", "4294967296",
     "4294967295", "1/0", "1//0", "0/1/1", "1/", "/", "//", "1/2/3/4", "a", "1.0", "+1", "01", "1/1/", "/1", "9223372036854775808",
 ];
